@@ -31,32 +31,37 @@ def run(rep, F, ctx):
             rep.add('ENV-TABLE', 'envtable:%s' % short, '%s exists' % fn, False, detail='anchor missing')
             continue
         B = cg.body(fn)
-        lits = sorted({s for i, s in envrules.string_consts(F, B)})
+        # the function together with the helpers it calls that did not exist in the confirmed tree (a shared `xdg_dirs(var, default)` helper is still this function)
+        import siteguard as _sg, inline as _inl
+        bodies = list(_sg.walk_bodies(F, cg, fn))
+        lits = sorted({s for HB, _a, _p in bodies for i, s in envrules.string_consts(F, HB)})
         ok_l = lits == sorted(spec['literals'])
         rep.add('ENV-TABLE', 'envtable:%s:literals' % short, '%s mentions exactly the literals %s' % (short, spec['literals']), ok_l, '%s:%d' % (B.file, B.line),
                 '' if ok_l else '%s uses the literals %s; the specification says %s (wrong variable or default?)' % (short, lits, sorted(spec['literals'])))
-        have = {skey_call(B, t) for i, t in B.calls()}
+        have = {_inl.subst(skey_call(HB, t), amap) for HB, amap, _p in bodies for i, t in HB.calls()}
         miss = [c for c in spec['calls'] if c not in have]
         rep.add('ENV-TABLE', 'envtable:%s:calls' % short, '%s reads %s and builds its fallback as documented' % (short, spec['var']), not miss, '%s:%d' % (B.file, B.line),
                 '' if not miss else '%s lacks the documented step(s) %s' % (short, miss))
         if spec.get('list'):
             # the parsed list is used only when non-empty
             okp = False
-            for i, j, s in B.assigns():
-                if s['rv']['k'] == 'use':
-                    d = sdesc_operand(B, s['rv']['op'])
-                    if d.startswith('parse_paths(') and d.endswith('?'):
-                        facts = known_facts(B, i)
-                        if any(ds.startswith('is_empty(') and not tr for ds, tr in facts):
-                            okp = True
+            for HB, amap, _p in bodies:
+                for i, j, st in HB.assigns():
+                    if st['rv']['k'] == 'use':
+                        d = sdesc_operand(HB, st['rv']['op'])
+                        if d.startswith('parse_paths(') and d.endswith('?'):
+                            facts = known_facts(HB, i)
+                            if any(ds.startswith('is_empty(') and not tr for ds, tr in facts):
+                                okp = True
             rep.add('ENV-TABLE', 'envtable:%s:empty-default' % short, '%s returns the parsed list only when it is non-empty (default otherwise)' % short, okp,
                     '%s:%d' % (B.file, B.line), '' if okp else '%s does not guard the parsed list with is_empty(): an empty variable yields an empty list instead of the default' % short)
             # default order
             order = []
-            for i, t in sorted(B.calls()):
-                k = skey_call(B, t)
-                if k.startswith("from('/"):
-                    order.append(k[6:-2])
+            for HB, amap, _p in bodies:
+                for i, t in sorted(HB.calls()):
+                    k = _inl.subst(skey_call(HB, t), amap)
+                    if k.startswith("from('/"):
+                        order.append(k[6:-2])
             ok_o = order == spec['defaults_in_order']
             rep.add('ENV-TABLE', 'envtable:%s:default-order' % short, '%s lists its defaults in the documented order %s' % (short, spec['defaults_in_order']), ok_o,
                     '%s:%d' % (B.file, B.line), '' if ok_o else 'defaults are built in the order %s' % order)
